@@ -307,6 +307,11 @@ func famRawClient(w *World) {
 	})
 	fs = append(fs, func() {
 		sleep(maxTTL + 40*time.Second)
+		// injected stalls can stretch the workload itself beyond any fixed window (one run
+		// had 38 s of them): no more of them from here on, and the collection ends only once
+		// the wire has been silent for five seconds
+		w.stopLags()
+		w.settle(5 * time.Second)
 		done = true
 	})
 	w.tasks(fs...)
